@@ -262,11 +262,13 @@ def binary_records(trace_iter, results, jobs_by_id, stats=None):
     """Events for spec/trace/BinaryConform.tla: for every replica of every two-input block (join, merge, zip) of a
     job, in program order: messages received from the left / right upstream block and what Start handed on."""
     stats = stats if stats is not None else {}
-    buf, job, pblock = [], None, {}
+    buf, job, pblock, setups = [], None, {}, {}
     for e in trace_iter:
         ev = e.get("ev")
         if ev == "job":
-            job, buf, pblock = e["id"], [], {}
+            job, buf, pblock, setups = e["id"], [], {}, {}
+        elif ev == "start_setup":
+            setups[e["at"]] = e
         elif ev == "probe":
             pblock.setdefault(e["id"], e["at"].split(".")[0])
         elif ev in ("recv", "start_out"):
@@ -347,7 +349,7 @@ def binary_records(trace_iter, results, jobs_by_id, stats=None):
                         stats["segments_skipped"] = stats.get("segments_skipped", 0) + 1
                         continue
                     yield {"ev": "begin", "job": job, "p": p + "/" + n["id"], "nl": len(seg["L"]), "nr": len(seg["R"]),
-                           "cl": bool(cl), "cr": bool(cr), "to": bool(to)}
+                           "cl": bool(cl), "cr": bool(cr), "to": bool(setups.get(p, {}).get("timeouts", to))}
                     yield from seg["ev"]
                     yield {"ev": "done", "ok": bool(ok)}
                     stats["segments"] = stats.get("segments", 0) + 1
@@ -400,7 +402,8 @@ def start_records(trace_iter, results, jobs_by_id, stats=None):
             for at in sorted(per):
                 if not per[at]:
                     continue
-                yield {"ev": "begin", "job": job, "p": at, "senders": simple[at]["prev"], "to": bool(to)}
+                yield {"ev": "begin", "job": job, "p": at, "senders": simple[at]["prev"],
+                       "to": bool(simple[at].get("timeouts", to))}
                 yield from per[at]
                 yield {"ev": "done", "ok": bool(ok)}
                 stats["segments"] = stats.get("segments", 0) + 1
